@@ -46,6 +46,13 @@ def plan(tier, seed):
     rot = seed % len(pool)
     pool = pool[rot:] + pool[:rot]
     exprs = [(t, ts + ":00") for t, ts in alphabet.corpus_sentences()] + [(s, "2018-03-07T12:43:00") for _, s in grammar.sentences()]
+    # every weekday spelling alone and in front of a clock (a spelling that is only recognised in some contexts shows up here)
+    from .. import vocab
+
+    for _, alts in vocab.dows():
+        for a in alts:
+            exprs.append((a, "2018-03-07T12:43:00"))
+            exprs.append((a.capitalize() + " 8 Uhr", "2018-03-07T12:43:00"))
     if tier == "thorough":
         exprs += [(s, "2020-02-29T23:59:30") for _, s in grammar.sentences()] + [(t, "2019-12-31T23:59:30") for t, ts in alphabet.corpus_sentences()]
     exprs = list(dict.fromkeys(exprs))
